@@ -84,7 +84,7 @@ def canon_name(sym, resmap):
             return f'{fname}.data.' + '.'.join(out) if ok else None
     if sym.startswith('clock.'): return sym
     m = re.match(r'^a(\d+)$', sym)
-    if sym == 'a0': return 'program_id'
+    if sym in ('a0', 'a0*'): return 'program_id'
     return None
 
 
